@@ -769,7 +769,7 @@ FINDING_MATCHERS = {
 
 
 SUBCHECKS = [
-    HypSub("aggregate", _aggregate_case, _check_aggregate, _classify_aggregate, budget={"quick": 10000, "thorough": 160000}),
-    HypSub("disaggregate", _disaggregate_case, _check_disaggregate, _classify_disaggregate, budget={"quick": 3000, "thorough": 40000}),
-    HypSub("arip", _arip_case, _check_arip, _classify_arip, budget={"quick": 4000, "thorough": 64000}),
+    HypSub("aggregate", _aggregate_case, _check_aggregate, _classify_aggregate, budget={"quick": 12000, "thorough": 160000}),
+    HypSub("disaggregate", _disaggregate_case, _check_disaggregate, _classify_disaggregate, budget={"quick": 3200, "thorough": 40000}),
+    HypSub("arip", _arip_case, _check_arip, _classify_arip, budget={"quick": 4800, "thorough": 64000}),
 ]
